@@ -38,7 +38,14 @@ EXPLANATION = (
     "denotes (multiset of products; operator order kept), the result is a bare Expr, empty text is 0. "
     "R18e: Expr.__init__ evaluated over the table sym_tensors x antisym_tensors x real x target_idx: "
     "declared names are stored, the bra-ket (anti)symmetry is applied with all declared names in place whenever either "
-    "list is non-empty, make_real iff real, target indices forwarded. Thorough tier: the literal round trip "
+    "list is non-empty, make_real iff real, target indices forwarded. R18f: printing is injective on the indices of an expression only if "
+    "one object exists per printed key: every constructor call of the class Index in the package (callee resolved by the "
+    "evaluator through imports, re-exports, module and local aliases) outside the registry class Indices is followed "
+    "through its aliases, every statement using it is evaluated and the position of the created object in the resulting "
+    "terms is classified - an index position of a tensor/delta/operator is a violation, scalar uses (power, differentiation "
+    "variable, old side of subs) are harmless, an object that leaves the function must be the temporary of a substitution "
+    "list that the whole-function evaluation shows introduced and eliminated again; premise checked on the printer: the "
+    "printed key of an index is exactly (name, spin), and the importer yields one object per key. Thorough tier: the literal round trip "
     "import(print(O)) = O with the text of the evaluated printers for every tensor kind x configured name x index group "
     "under both configurations, alone and embedded in a fraction, a bracket with exponent and a sum.")
 ASSUMPTIONS = [
@@ -52,6 +59,8 @@ ASSUMPTIONS = [
     "make_real re-applies the bra-ket symmetry when it adds fock/eri (checked by C06) - used to accept real=True paths of "
     "Expr.__init__",
     "the object catalogue is finite (bounded): names, index groups up to three indices, exponents 1, 2, 12",
+    "R18f: indices produced by sympy itself (subs/xreplace copies) and objects cloned through type(x)(...) are not creation "
+    "sites; the registry (class Indices) is trusted to hold one object per (name, space, spin) and the index letter fixes the space",
     "R18a: the writer table is collected from constructor calls by callee name and a may-flow of tensor_names.<field> "
     "through local bindings; constructors reached through class-valued variables are not seen",
 ]
@@ -933,6 +942,386 @@ def r18e(ctx, cfgs):
     ctx.floor(rule, "evaluations of Expr.__init__", n, 64)
 
 
+# ------------------------------------------------------------------ R18f: who may create an Index
+
+INDEXED = set(CTORS) | {"KroneckerDelta", "F", "Fd", "AnnihilateFermion", "CreateFermion", "NO"}
+_SCALAR_OPS = {"mul", "add", "pow", "cmp", "not", "and", "or", "isinstance", "ite", "fstr", "binop", "attr", "item", "slice"}
+_STORE_METHODS = {"append", "add", "insert", "extend", "update", "setdefault", "appendleft"}
+
+
+class _Names:
+    """What a callee expression denotes, by the name resolution of the evaluator (imports, re-exports, aliases at module
+    level, function-local imports and aliases) - not by its spelling."""
+
+    def __init__(self, ctx):
+        self.ctx = ctx
+        sx = Symex(ctx.model, inline=lambda q: False, what="R18f names")
+        sx.prefix, sx.decisions, sx.facts, sx.path, sx.effects = [], [], {}, [], []
+        sx.steps = sx.depth = 0
+        sx.frames, sx.module = [], None
+        self.sx = sx
+        self.cache = {}
+
+    def _global(self, mod, name):
+        key = (mod.name, name)
+        if key not in self.cache:
+            try:
+                self.sx.steps = 0
+                self.cache[key] = self.sx.global_name(mod, name)
+            except (AnalysisError, Raised, RecursionError):
+                self.cache[key] = None
+        return self.cache[key]
+
+    def denotes(self, node, depth=0):
+        """ClassRef / ModRef / Func / Ext / None for a Name or Attribute node (with ``_module`` / ``_parent`` links)."""
+        mod = node._module
+        if depth > 6:
+            return None
+        if isinstance(node, ast.Name):
+            # function-local imports and aliases of the enclosing functions (order-free, may-analysis)
+            f_ = getattr(node, "_parent", None)
+            while f_ is not None:
+                if isinstance(f_, (ast.FunctionDef, ast.AsyncFunctionDef)):
+                    for st in ast.walk(f_):
+                        if isinstance(st, ast.ImportFrom):
+                            for al in st.names:
+                                if (al.asname or al.name) == node.id:
+                                    try:
+                                        return self.sx.resolve_import(mod, f"{'.' * st.level}{st.module or ''}:{al.name}", node.id)
+                                    except (AnalysisError, Raised):
+                                        return None
+                        elif isinstance(st, ast.Assign) and isinstance(st.value, (ast.Name, ast.Attribute)) and st.value is not node \
+                                and any(isinstance(t, ast.Name) and t.id == node.id for t in st.targets):
+                            v = self.denotes(st.value, depth + 1)
+                            if v is not None:
+                                return v
+                f_ = getattr(f_, "_parent", None)
+            return self._global(mod, node.id)
+        if isinstance(node, ast.Attribute):
+            v = self.denotes(node.value, depth + 1)
+            if v is not None and type(v).__name__ == "ModRef":
+                m = self.ctx.model.modules.get(v.name)
+                return self._global(m, node.attr) if m is not None else None
+        return None
+
+    def is_index_class(self, v):
+        return type(v).__name__ == "ClassRef" and v.module.name == "indices" and v.qual == "Index"
+
+
+def _is_created(t):
+    return isinstance(t, T) and t.op == "call" and t.args[0] == "Index"
+
+
+def _positions(v):
+    """Where Index(...) terms sit inside an evaluated value: list of (kind, detail).  kind: 'index' (argument of an
+    indexed object), 'scalar' (arithmetic, comparison, differentiation variable, attribute read), 'eliminated' (the old
+    side of a substitution), 'introduced', 'store', 'call', 'plain' (the value itself or an element of containers)."""
+    out = []
+
+    def walk(x, anc):
+        if _is_created(x):
+            out.append(_classify(anc))
+            return
+        if isinstance(x, T):
+            if x.op == "call":
+                name, pos, kw = x.args
+                for k, y in enumerate(pos):
+                    walk(y, anc + [("call", name, k)])
+                for k, y in kw:
+                    walk(y, anc + [("call", name, k)])
+                if isinstance(name, T):
+                    walk(name, anc + [("scalar", "callee", 0)])
+            elif x.op == "mcall":
+                recv, name, pos, kw = x.args
+                walk(recv, anc + [("recv", name, 0)])
+                for k, y in enumerate(pos):
+                    walk(y, anc + [("mcall", name, k, recv)])
+                for k, y in kw:
+                    walk(y, anc + [("mcall", name, k, recv)])
+            elif x.op in ("setattr", "setitem"):
+                for y in x.args:
+                    walk(y, anc + [("store", x.op, 0)])
+            else:
+                for y in x.args:
+                    walk(y, anc + [("op", x.op, 0)])
+        elif isinstance(x, (tuple, list, set, frozenset)):
+            for y in x:
+                walk(y, anc + [("seq",)])
+        elif isinstance(x, dict):
+            for k, y in x.items():
+                walk(k, anc + [("seq",)])
+                walk(y, anc + [("seq",)])
+    walk(v, [])
+    return out
+
+
+def _classify(anc):
+    real = [a for a in anc if a[0] != "seq"]
+    if not real:
+        return ("plain", "the value itself" if not anc else "element of a container", None)
+    a = real[-1]
+    if a[0] == "call":
+        name = a[1] if isinstance(a[1], str) else show(a[1])
+        if name in INDEXED:
+            return ("index", name, None)
+        if name in ("diff", "Derivative", "isinstance", "len", "id", "hash", "str", "repr"):
+            return ("scalar", name, None)
+        if name == "dict":
+            return ("plain", "element of a container", None)
+        return ("call", name, a[2])
+    if a[0] == "recv":
+        return ("scalar", f"receiver of .{a[1]}", None)
+    if a[0] == "mcall":
+        if a[1] in ("subs", "xreplace", "replace"):
+            return ("eliminated", a[1], None) if a[2] == 0 else ("introduced", a[1], None)
+        if a[1] in ("diff", "has", "coeff", "count", "index", "get", "pop", "remove", "discard", "atoms"):
+            return ("scalar", a[1], None)
+        if a[1] in _STORE_METHODS:
+            return ("store", f"{show(a[3])[:40]}.{a[1]}", None)
+        return ("call", f".{a[1]}", a[2])
+    if a[0] == "store":
+        return ("store", a[1], None)
+    if a[0] == "scalar" or (a[0] == "op" and a[1] in _SCALAR_OPS):
+        return ("scalar", a[1], None)
+    return ("call", a[1], None)
+
+
+def _local_names(fn):
+    names = set()
+    for n in ast.walk(fn):
+        if isinstance(n, ast.Name) and isinstance(n.ctx, (ast.Store, ast.Del)):
+            names.add(n.id)
+        elif isinstance(n, ast.arg):
+            names.add(n.arg)
+        elif isinstance(n, (ast.FunctionDef, ast.AsyncFunctionDef)) and n is not fn:
+            names.add(n.name)
+    return names
+
+
+def _unit_of(node):
+    """The innermost evaluable unit around ``node``: a simple statement, or the header expression / lambda body that
+    contains it (as a synthesised ``return <expr>``)."""
+    cur, inner = node, node
+    while cur is not None:
+        par = getattr(cur, "_parent", None)
+        if isinstance(par, ast.Lambda) and cur is par.body:
+            return ast.copy_location(ast.Return(value=cur), cur)
+        if isinstance(cur, ast.stmt):
+            if isinstance(cur, (ast.Assign, ast.AugAssign, ast.AnnAssign, ast.Expr, ast.Return, ast.Assert, ast.Delete, ast.Raise)):
+                return cur
+            # compound statement: ``inner`` is the header expression the node sits in
+            return ast.copy_location(ast.Return(value=inner), inner) if isinstance(inner, ast.expr) else None
+        inner = cur
+        cur = par
+    return None
+
+
+def _outer_function(node):
+    f_, out = getattr(node, "_parent", None), None
+    while f_ is not None:
+        if isinstance(f_, (ast.FunctionDef, ast.AsyncFunctionDef)):
+            out = f_
+        f_ = getattr(f_, "_parent", None)
+    return out
+
+
+def _callee(ctx, fn, name, k):
+    """The package function a call term refers to and the parameter that receives argument ``k`` (None if unknown)."""
+    last = name.lstrip(".").split(".")[-1]
+    cands = [f_ for q, f_ in fn._module.functions.items() if q.split(".")[-1] == last]
+    if len(cands) != 1:
+        cands = [f_ for m in ctx.model.modules.values() for q, f_ in m.functions.items() if q.split(".")[-1] == last]
+    if len(cands) != 1:
+        return None, None
+    callee = cands[0]
+    params = [x.arg for x in callee.args.posonlyargs + callee.args.args]
+    if params[:1] in (["self"], ["cls"]):
+        params = params[1:]
+    allp = params + [x.arg for x in callee.args.kwonlyargs]
+    if isinstance(k, str):
+        return (callee, k) if k in allp else (None, None)
+    if isinstance(k, int) and k < len(params):
+        return callee, params[k]
+    return None, None
+
+
+def _site_uses(ctx, fn, names, start, aliases, created, depth=0):
+    """Every position the created object (and its aliases inside ``fn``) takes: [(kind, detail, node)].  ``start``: the
+    nodes to begin with, ``aliases``: local name -> evaluated value that is / holds the created object."""
+    sx = Symex(ctx.model, inline=lambda q: False, what=f"R18f {getattr(fn, '_qual', fn.name)}", max_paths=256)
+    local = _local_names(fn)
+    aliases = dict(aliases)
+    done, found = set(), []
+    work = list(start)
+
+    def note(kd, det, k, node):
+        if kd == "plain":
+            return
+        if kd == "call" and depth < 3:
+            callee, prm = _callee(ctx, fn, det, k)
+            if callee is not None:
+                loads = [n for n in ast.walk(callee) if isinstance(n, ast.Name) and isinstance(n.ctx, ast.Load) and n.id == prm]
+                inner = _site_uses(ctx, callee, names, loads, {prm: created}, created, depth + 1)
+                # the callee handing the object back makes the call expression an alias we do not follow
+                found.extend((("call", det + " (returns it)", n_) if kd_ == "return" else (kd_, det_, n_)) for kd_, det_, n_ in inner)
+                return
+        found.append((kd, det, node))
+    while work:
+        node = work.pop()
+        unit = _unit_of(node)
+        if unit is None:
+            raise AnalysisError(f"R18f: use of an unregistered Index at line {getattr(node, 'lineno', '?')} of "
+                                f"{getattr(fn, '_qual', fn.name)} is not inside an evaluable statement")
+        key = (getattr(unit, "lineno", 0), getattr(unit, "col_offset", 0), type(unit).__name__, id(unit) if isinstance(unit, ast.Return) and unit.value is node else 0)
+        if key in done:
+            continue
+        done.add(key)
+
+        def env():
+            e = {n: sym(n) for n in local}
+            e.update(aliases)
+            return e
+        try:
+            outs = sx.run_block(fn, [unit], env)
+        except AnalysisError as err:
+            raise AnalysisError(f"R18f: statement at line {getattr(unit, 'lineno', '?')} of {getattr(fn, '_qual', fn.name)} using an "
+                                f"unregistered Index cannot be evaluated: {err}")
+        new_alias = False
+        for o in outs:
+            vals = []
+            if o.kind == "return":
+                for kd, det, k in _positions(o.value):
+                    # a synthesised return is only a header expression; a real return hands the object out
+                    if kd == "plain" and isinstance(unit, ast.Return) and getattr(unit, "_parent", None) is not None:
+                        found.append(("return", det, node))
+                    else:
+                        note(kd, det, k, node)
+            for n, v in (o.env or {}).items():
+                if n in local and not (isinstance(v, T) and v.op == "sym") and n not in aliases:
+                    ps = _positions(v)
+                    if ps and all(kd == "plain" for kd, _, _ in ps):
+                        aliases[n] = v
+                        new_alias = True
+                    else:
+                        vals.append(v)
+            for v in vals + [e for e in o.effects if not _is_created(e)]:
+                for kd, det, k in _positions(v):
+                    note(kd, det, k, node)
+        if new_alias:
+            for n in ast.walk(fn):
+                if isinstance(n, ast.Name) and isinstance(n.ctx, ast.Load) and n.id in aliases:
+                    work.append(n)
+    return found
+
+
+def _placeholder_discipline(ctx, fn):
+    """The whole function evaluated: an Index created here may only leave it as the temporary of a substitution list
+    [(old, new), ...] - introduced as ``new`` and later eliminated as ``old``.  Returns None or the reason."""
+    params = [x.arg for x in fn.args.posonlyargs + fn.args.args + fn.args.kwonlyargs]
+    sx = Symex(ctx.model, inline=lambda q: False, what=f"R18f {fn.name}", max_paths=2048)
+    try:
+        outs = sx.run(fn, lambda: {p_: sym(p_.upper()) for p_ in params})
+    except AnalysisError as err:
+        return f"the function cannot be evaluated as a whole ({str(err)[:120]})"
+    for o in outs:
+        for e in o.effects:
+            bad = [(kd, det) for kd, det, _ in _positions(e) if kd not in ("scalar", "eliminated", "plain")]
+            if bad and not _is_created(e):
+                return f"the created index is handed to {bad[0][1]} ({show(e)[:120]})"
+        if o.kind != "return" or not _positions(o.value):
+            continue
+        v = o.value
+        if not isinstance(v, (list, tuple)) or not all(isinstance(x, tuple) and len(x) == 2 for x in v):
+            return f"it is returned inside {show(v)[:160]}"
+        balance = 0
+        for old, new_ in v:
+            if _positions(new_):
+                if not _is_created(new_):
+                    return f"it is returned inside {show(new_)[:120]}"
+                balance += 1
+            if _positions(old):
+                if not _is_created(old):
+                    return f"it is returned inside {show(old)[:120]}"
+                balance -= 1
+                if balance < 0:
+                    return "a substitution removes the temporary before it was introduced"
+        if balance != 0:
+            return f"the substitution list {show(v)[:200]} introduces the temporary index without removing it again"
+    return None
+
+
+def r18f(ctx):
+    """Printing is injective on the indices of an expression only if one object exists per printed key (name, spin):
+    every Index that can occupy an index position is created by the registry (class Indices)."""
+    rule = "R18f"
+    names = _Names(ctx)
+    sites = []
+    for mname, m in sorted(ctx.model.modules.items()):
+        for node in ast.walk(m.tree):
+            if isinstance(node, ast.Call) and isinstance(node.func, (ast.Name, ast.Attribute)) \
+                    and names.is_index_class(names.denotes(node.func)):
+                sites.append(node)
+    registry = [c for c in sites if (getattr(c, "_cls", None) or "").split(".")[0] == "Indices" and c._module.name == "indices"]
+    ctx.floor(rule, "creation sites of Index inside the registry (class Indices)", len(registry), 1)
+    for c in registry:
+        ctx.ok(rule, c, "Index created by the registry", key=f"registry {c._fn}")
+    for c in sites:
+        if c in registry:
+            continue
+        fn = _outer_function(c)
+        where = f"{c._module.name}:{getattr(fn, '_qual', None) or '<module>'}"
+        try:
+            shown = ast.unparse(c)
+        except Exception:
+            shown = "Index(...)"
+        if fn is None:
+            ctx.bad(rule, c, f"`{shown}` at module level creates an Index behind the registry: it prints like the registered index of "
+                    "that name, the printed text is ambiguous and importing it merges the two", fn=where, key="created at module level")
+            continue
+        al = {}
+        if isinstance(c.func, ast.Name) and c.func.id in _local_names(fn):
+            al[c.func.id] = names.denotes(c.func)        # a local alias of the class
+        created = T("call", "Index", tuple(f"<{ast.unparse(x)}>" for x in c.args), tuple((k.arg or "**", f"<{ast.unparse(k.value)}>") for k in c.keywords))
+        uses = _site_uses(ctx, fn, names, [c], al, created)
+        idx = [u for u in uses if u[0] == "index"]
+        open_ = [u for u in uses if u[0] in ("introduced", "store", "call", "return")]
+        if idx:
+            ctx.bad(rule, c, f"`{shown}` creates an Index behind the registry and puts it into an index position of "
+                    f"{sorted({u[1] for u in idx})}: it prints exactly like every other index of that name and spin (the printer "
+                    "shows name and spin only), so the printed expression is ambiguous and importing it merges distinct indices "
+                    "(the value changes)", fn=where, key="unregistered index in index position")
+            continue
+        if open_:
+            why = _placeholder_discipline(ctx, fn)
+            ctx.check(rule, c, why is None, f"`{shown}` in {where}: temporary of a substitution list, introduced and eliminated again",
+                      f"`{shown}` creates an Index behind the registry that leaves {where}: {why}; used as "
+                      f"{sorted({u[0] + ' ' + str(u[1]) for u in open_})[:4]}", fn=where, key="unregistered index leaves the function")
+            continue
+        ctx.ok(rule, c, f"`{shown}` in {where}: only scalar uses ({sorted({u[1] for u in uses})[:6]}), never an index of an object",
+               fn=where, key="unregistered index used as scalar")
+    ctx.floor(rule, "constructor calls of Index resolved in the package", len(sites), 1)
+    # the premise: the printed key of an index is exactly (name, spin) - objects that differ in anything else (space
+    # assumptions, identity) print identically, objects that differ in name or spin never do; the importer obtains every
+    # index from get_symbols, i.e. one object per key
+    wr = Writer(ctx, *configs(ctx)[:1] * 2)
+    fn = wr.method("Index")
+    texts = {}
+    for ix in (i, ia, ib, j, i1, IDX("i1", "a"), IDX("i11"), j12a, IDX("j1"), IDX("j12"), a, aa, ab_, p, pa):
+        for space in ("occ", "virt", "general", None):
+            o = wr.index(ix)
+            if space:
+                o.attrs["space"] = space
+            outs = wr.sx.run(fn, lambda: positional(fn, o, Obj(None, "printer")))
+            t = outs[0].value if len(outs) == 1 and outs[0].kind == "return" else None
+            texts.setdefault(t, set()).add(ix[1:])
+    bad = {t: sorted(v) for t, v in texts.items() if len(v) != 1 or not isinstance(t, str)}
+    ctx.check(rule, fn, not bad and len(texts) >= 15, "the printed key of an index is exactly (name, spin)",
+              f"Index._latex is not a function of exactly (name, spin): {bad}", key="printed key")
+    rd = Reader(ctx, configs(ctx)[0], configs(ctx)[0], "default")
+    read_check(ctx, rule, rd, tensor("AntiSymmetricTensor", "x", (i, a), (i, i)), "one object per printed key",
+               "equal index text is one index object (the importer asks the registry)")
+
+
 # ------------------------------------------------------------------ thorough: literal round trip
 
 def round_trip(ctx, wr, rd, cfg):
@@ -991,6 +1380,8 @@ def run(ctx):
         return readers[tag]
     if ctx.want("R18e"):
         r18e(ctx, cfgs)
+    if ctx.want("R18f"):
+        r18f(ctx)
     if ctx.want("R18b") or ctx.want("R18b'"):
         r18b_writer(ctx, Writer(ctx, defaults, defaults))
         r18b_reader(ctx, reader("default"))
